@@ -419,8 +419,18 @@ def loop_error_discipline(repo, col):
                  and not any(isinstance(p, ast.For) and p is not loop and
                              x in list(ast.walk(p)) for p in ast.walk(loop)
                              if isinstance(p, ast.For) and p is not loop)]
-        stores = [c for c in calls_in(loop) if isinstance(c.func, ast.Attribute)
-                  and c.func.attr == "store_file"]
+        from .core import resolve_local_call, helper_closure
+
+        def _stores(c):
+            if isinstance(c.func, ast.Attribute) and \
+                    c.func.attr == "store_file":
+                return True
+            h = resolve_local_call(fl, c)
+            return h is not None and any(
+                isinstance(x.func, ast.Attribute) and
+                x.func.attr == "store_file"
+                for g in helper_closure(h) for x in calls_in(g.node))
+        stores = [c for c in calls_in(loop) if _stores(c)]
         ok = bool(stores) and not skips
         col.add(rule, fl, "every row of the table is written", ok, "" if ok
                 else "a row of the link table can be skipped (continue/break) "
@@ -617,9 +627,13 @@ def stats_accumulation_nesting(repo, col):
         col.add(rule, top, "per-chunk-size loop", True, "loop over chunk_sizes "
                 "not found", undecided=True)
         return
+    tdefs = local_defs(top.node)
+    # accumulators: names initialised to 0 and increased with +=
     allaug = {s.target.id for s in stmts_of(top.node)
               if isinstance(s, ast.AugAssign) and isinstance(s.target, ast.Name)
-              and s.target.id.startswith("total")}
+              and isinstance(s.op, ast.Add) and any(
+                  isinstance(d.value, ast.Constant) and d.value.value == 0
+                  for d in tdefs.get(s.target.id, []))}
     if fn is top:
         inside = {norm(s.target) for s in ast.walk(inner)
                   if isinstance(s, ast.AugAssign)}
@@ -641,8 +655,12 @@ def stats_accumulation_nesting(repo, col):
                     resolve_local_call(top, st.iter) is fn and yields_inside:
                 inside |= {norm(s.target) for s in ast.walk(st)
                            if isinstance(s, ast.AugAssign)}
-    want = {t for t in allaug if t in ("total_size", "total_chunks")} or \
-        {"total_size", "total_chunks"}
+    want = set(allaug)
+    if not want:
+        col.add(rule, top, "totals accumulate once per chunk size (as the "
+                "chunks are written)", True, "no accumulators recognised",
+                undecided=True)
+        return
     ok = want <= inside
     col.add(rule, top, "totals accumulate once per chunk size (as the chunks "
             "are written)", ok, "" if ok else "%s accumulated outside the "
@@ -751,12 +769,24 @@ def shard_protocol_guards(repo, col):
             "the reader does not refuse an id that is absent from the "
             "minishard index: a never-stored chunk is answered with a "
             "neighbour's bytes")
-    walk = [s for s in stmts_of(rd.node) if isinstance(s, ast.While)]
-    okw = bool(walk) and norm(walk[0].test) in ("idx_tally < %s" % cmc,
-                                                "%s > idx_tally" % cmc)
+    from .dataflow import holds as _holds
+    walk = [s for s in stmts_of(rd.node) if isinstance(s, ast.While)
+            and cmc in names_in(s.test)]
+    okw, wdesc = False, "-"
+    if walk:
+        wdesc = norm(walk[0].test)
+        for a in _holds(walk[0].test, True):
+            for b in (a, a.flipped()):
+                # <running sum> < <requested id>
+                if norm(b.right) == cmc and b.op == "<" and \
+                        isinstance(b.left, ast.Name) and any(
+                            isinstance(x, ast.AugAssign) and
+                            norm(x.target) == b.left.id
+                            for x in ast.walk(walk[0])):
+                    okw = True
     col.add(rule, rd, "walk while cumulative id < requested id", okw,
-            "" if okw else "index walk condition is `%s`"
-            % (norm(walk[0].test) if walk else "-"), undecided=not walk)
+            "" if okw else "index walk condition is `%s`" % wdesc,
+            undecided=not walk)
     ini = repo.func("sharded_base", "ReadableMiniShardCMC.__init__")
     ok3 = False
     for g, atoms in raise_guards(ini.node):
@@ -769,35 +799,58 @@ def shard_protocol_guards(repo, col):
     # 3. the shard index written at offset 0 has exactly the placeholder's
     #    length: too many entries raise, too few are padded with a strict <
     cl = repo.func("sharded_file_accessor", "Shard.close", inline=True)
+    ptab = single_defs(cl.node)
+    cdefs = local_defs(cl.node)
+
+    def _oriented(test):
+        """(length name, op, bound expr) with the 2**minishard_bits*16 bound
+        on the right, or None."""
+        if not (isinstance(test, ast.Compare) and len(test.ops) == 1):
+            return None
+        for a in _holds(test, True):
+            for b in (a, a.flipped()):
+                rb = norm(expand(b.right, ptab))
+                if "minishard_bits" in rb and "16" in rb and \
+                        isinstance(b.left, ast.Name):
+                    return b.left.id, b.op, rb
+        return None
+
+    def _is_length(name):
+        vs = [d.value for d in cdefs.get(name, []) if d.value is not None]
+        return bool(vs) and all(isinstance(v, ast.Call) and
+                                call_name(v) == "len" for v in vs)
     pads = [s for s in stmts_of(cl.node) if isinstance(s, ast.While)
-            and "sh_idx_len" in norm(s.test)]
+            and _oriented(s.test) is not None]
     if not pads:
         col.add(rule, cl, "index padded to its full length", True,
                 "padding loop not in the recognised form", undecided=True)
     else:
+        lname, op, _ = _oriented(pads[0].test)
         t = pads[0].test
-        ptab = single_defs(cl.node)
-        ok = isinstance(t, ast.Compare) and isinstance(t.ops[0], ast.Lt) and \
-            norm(t.left) == "sh_idx_len" and \
-            "minishard_bits" in norm(expand(t.comparators[0], ptab)) and \
-            "16" in norm(expand(t.comparators[0], ptab))
+        ok = op == "<" and _is_length(lname)
         col.add(rule, cl, "while %s" % norm(t), ok, "" if ok else
                 "padding continues while `%s`: one entry too many makes the "
                 "index longer than its placeholder and the first bytes of "
-                "chunk data are overwritten" % norm(t))
-        upd = any(isinstance(s, ast.Assign) and norm(s.targets[0]) ==
-                  "sh_idx_len" and norm(s.value) == "len(sh_idx_buf)"
-                  for s in pads[0].body)
+                "chunk data are overwritten" % norm(t),
+                undecided=not ok and not _is_length(lname))
+        upd = any(isinstance(s, ast.Assign) and norm(s.targets[0]) == lname
+                  and isinstance(s.value, ast.Call)
+                  and call_name(s.value) == "len"
+                  for s in ast.walk(pads[0]))
         col.add(rule, cl, "length re-measured in the padding loop", upd,
                 "" if upd else "padding loop does not re-measure the index",
                 undecided=not upd)
     too_many = False
-    ltab = single_defs(cl.node)
     for g, atoms in raise_guards(cl.node):
         for a in atoms:
-            if norm(a.left) == "sh_idx_len" and a.op in ("<", "<=") and \
-                    "minishard_bits" in norm(expand(a.right, ltab)):
-                too_many = True
+            for b in (a, a.flipped()):
+                lb = expand(b.left, ptab)
+                if (isinstance(b.left, ast.Name) and _is_length(b.left.id)
+                        or (isinstance(lb, ast.Call)
+                            and call_name(lb) == "len")) and \
+                        b.op in ("<", "<=") and \
+                        "minishard_bits" in norm(expand(b.right, ptab)):
+                    too_many = True
     from .core import helper_closure
     opaque = [h for h in helper_closure(getattr(cl, "inlined_from", cl))
               if h.key != cl.key and "sh_idx" in ftext(h)]
